@@ -70,6 +70,9 @@ def _one(args):
                     "msgs": [f"{f.rule} {f.construct}: {f.msg}"[:200] for f in ctx.findings][:6]}
         except AnalysisError as e:
             return {"name": mut["name"], "status": "analysis-error", "why": str(e)[:300]}
+        except Exception as e:  # a crash of the checker on a mutant is a defect of the checker
+            import traceback
+            return {"name": mut["name"], "status": "crash", "why": traceback.format_exc()[-400:]}
     finally:
         shutil.rmtree(scratch, ignore_errors=True)
 
